@@ -145,6 +145,103 @@ pub proof fn lemma_climb_start(it: flat_tree::Iterator, root: u64)
     flat_tree::lemma_node_of_index(root);
 }
 
+/*@ item src/oplog/header.rs struct HeaderTree @*/
+
+/*@ fn src/tree/merkle_tree.rs fn get_root_indices
+tags: C01 C05 C06
+result: r
+requires:
+    *header_tree_length <= 0xff_ffff_ffff
+ensures:
+    r@ == flat_tree::spec_full_roots(2 * *header_tree_length), r@.len() <= 64,
+    forall|k: int| 0 <= k < r@.len() ==> (#[trigger] r@[k]) < 2 * *header_tree_length,
+    flat_tree::idx_mr(r@, 2 * *header_tree_length)
+@*/
+
+/// a root list whose indices are a mountain range of indices is a mountain range
+pub proof fn lemma_mr_from_idx(roots: Seq<Node>, idx: Seq<u64>, end: int)
+    requires roots.len() <= idx.len(), forall|k: int| 0 <= k < roots.len() ==> (#[trigger] roots[k]).index == idx[k], flat_tree::idx_mr(idx, end)
+    ensures mr(roots), root_start(roots, roots.len() as int) == flat_tree::idx_start(idx, roots.len() as int)
+    decreases roots.len()
+{
+    lemma_start_same(roots, idx, roots.len() as int);
+    assert forall|k: int| 0 <= k < roots.len() implies #[trigger] mr_at(roots, k) by { lemma_start_same(roots, idx, k); assert(idx[k] == idx[k]); }
+}
+pub proof fn lemma_start_same(roots: Seq<Node>, idx: Seq<u64>, k: int)
+    requires 0 <= k <= roots.len(), roots.len() <= idx.len(), forall|j: int| 0 <= j < roots.len() ==> (#[trigger] roots[j]).index == idx[j]
+    ensures root_start(roots, k) == flat_tree::idx_start(idx, k)
+    decreases k
+{ if k > 0 { lemma_start_same(roots, idx, k - 1); assert(roots[k - 1].index == idx[k - 1]); } }
+
+impl MerkleTree {
+    /*@ fn src/tree/merkle_tree.rs MerkleTree::open
+    tags: C01 C05 C06
+    result: r
+    requires:
+        header_tree.length <= 0xff_ffff_ffff, infos_small(infos),
+        // the records handed in are the ones read for the instructions of the first call: one per root, none missing
+        infos is Some ==> infos->Some_0@.len() >= flat_tree::spec_full_roots(2 * header_tree.length).len()
+            && forall|i: int| 0 <= i < infos->Some_0@.len() ==> (#[trigger] infos->Some_0@[i]).data is Some && infos->Some_0@[i].data->Some_0@.len() >= 8
+    ensures:
+        // first call: one 40-byte read per root of the stored length
+        r is Ok && infos is None ==> r->Ok_0 is Left && instr_tree(r->Ok_0->Left_0@),
+        // second call: the tree of the header - its roots are the mountain range of the header's length (the representation
+        // invariant every other tree function relies on), its sizes are summed, its fork is the header's
+        r is Ok && infos is Some ==> r->Ok_0 is Right && r->Ok_0->Right_0.length == header_tree.length && r->Ok_0->Right_0.fork == header_tree.fork
+            && mr(r->Ok_0->Right_0.roots@) && root_start(r->Ok_0->Right_0.roots@, r->Ok_0->Right_0.roots@.len() as int) == 2 * r->Ok_0->Right_0.length
+            && r->Ok_0->Right_0.byte_length == roots_sum(r->Ok_0->Right_0.roots@)
+            && r->Ok_0->Right_0.unflushed@ =~= Map::empty() && !r->Ok_0->Right_0.truncated
+            && (r->Ok_0->Right_0.signature is Some) == (header_tree.signature@.len() > 0)
+    sub `(?s)root_indices\s*\.iter\(\)\s*\.map\(\|&index\| \{\s*(StoreInfoInstruction::new_content\(.*?\))\s*\}\)\s*\.collect::<Vec<StoreInfoInstruction>>\(\)\s*\.into_boxed_slice\(\)` => `{ let mut vp_v: Vec<StoreInfoInstruction> = Vec::new(); let mut vp_k: usize = 0; while vp_k < root_indices.len() { let index = root_indices[vp_k]; vp_v.push(\1); vp_k += 1; } vp_v.into_boxed_slice() }`
+    sub `Signature::try_from\(&\*header_tree\.signature\)\.map_err\(\|_err\| \{` => `Signature::vp_try_from(&*header_tree.signature).map_err(|vp_err| {`
+    loop 1:
+        invariant
+            vp_k <= root_indices@.len(), instr_tree(vp_v@), forall|k: int| 0 <= k < root_indices@.len() ==> (#[trigger] root_indices@[k]) < 0x200_0000_0000
+        decreases root_indices@.len() - vp_k
+    loop 2:
+        invariant
+            header_tree.length <= 0xff_ffff_ffff, infos_small(Some(infos)), i <= root_indices@.len(), roots@.len() == i,
+            root_indices@ == flat_tree::spec_full_roots(2 * header_tree.length), root_indices@.len() <= 64, flat_tree::idx_mr(root_indices@, 2 * header_tree.length),
+            infos@.len() >= root_indices@.len(),
+            forall|k: int| 0 <= k < infos@.len() ==> (#[trigger] infos@[k]).data is Some && infos@[k].data->Some_0@.len() >= 8,
+            forall|k: int| 0 <= k < roots@.len() ==> (#[trigger] roots@[k]).index == root_indices@[k] && roots@[k].length <= 0xffff_ffff_ffff,
+            byte_length == roots_sum(roots@), byte_length <= i * 0xffff_ffff_ffff,
+            length == flat_tree::idx_start(root_indices@, i as int), length <= 2 * header_tree.length
+    before `byte_length += node.length;`:
+        proof {
+            lemma_rec_size(node.length, data@);
+            assert(infos@[i as int].data->Some_0@ == data@);
+            assert(node.length <= 0xffff_ffff_ffff);
+            lemma_idx_step(root_indices@, 2 * header_tree.length, i as int);
+        }
+        let ghost r0 = roots@;
+    after `roots.push(node);`:
+        proof { assert(roots@.drop_last() =~= r0); }
+    before `if length > 0 {`:
+        proof { lemma_mr_from_idx(roots@, root_indices@, 2 * header_tree.length); }
+    @*/
+}
+/// one step of summing up the spans of a mountain range of indices
+pub proof fn lemma_idx_step(idx: Seq<u64>, end: int, i: int)
+    requires flat_tree::idx_mr(idx, end), 0 <= i < idx.len()
+    ensures idx[i] - flat_tree::idx_start(idx, i) == p2(depth_of(idx[i])) - 1, p2(depth_of(idx[i])) >= 1,
+        flat_tree::idx_start(idx, i + 1) == flat_tree::idx_start(idx, i) + 2 * p2(depth_of(idx[i])),
+        0 <= flat_tree::idx_start(idx, i), flat_tree::idx_start(idx, i + 1) <= end
+{
+    flat_tree::lemma_p2_pos(depth_of(idx[i]));
+    assert(p2(depth_of(idx[i]) + 1) == 2 * p2(depth_of(idx[i])));
+    lemma_idx_start_mono(idx, i + 1, idx.len() as int);
+    lemma_idx_start_mono(idx, 0, i);
+}
+pub proof fn lemma_idx_start_mono(idx: Seq<u64>, a: int, b: int)
+    requires 0 <= a <= b
+    ensures 0 <= flat_tree::idx_start(idx, a) <= flat_tree::idx_start(idx, b)
+    decreases b
+{
+    if a < b { lemma_idx_start_mono(idx, a, b - 1); flat_tree::lemma_p2_pos(depth_of(idx[b - 1]) + 1); }
+    else if a > 0 { lemma_idx_start_mono(idx, a - 1, a - 1); flat_tree::lemma_p2_pos(depth_of(idx[a - 1]) + 1); }
+}
+
 impl MerkleTree {
     /*@ fn src/tree/merkle_tree.rs MerkleTree::seek_proof
     tags: C09 C03
